@@ -43,6 +43,7 @@ Inductive callee :=
 
 Inductive meth :=
 | MInit | MStart | MClose | MRunAndContinue | MRunContinueAndWait | MRequested | MDisable   (* Continuous *)
+| MAenter | MAexit | MEnabled | MSubscribeEnabled                                          (* Continuous: __aenter__, __aexit__, the two accessors *)
 | MCInit | MOnStartRun | MOnStartPrompt | MOnFinished                                          (* Continue *)
 | MNlInit | MNlStart | MNlClose | MNlRun | MNlRunSession | MNlRunAndContinue | MNlRunContinueAndWait.  (* Nextline *)
 
@@ -63,6 +64,8 @@ Inductive stmt :=
 | Await (c : callee)
 | Raise                             (* bare `raise` *)
 | Return
+| ReturnLatest                      (* return self._pubsub_enabled.latest()     -- the accessor `enabled` *)
+| ReturnSubscribe                   (* return self._pubsub_enabled.subscribe()  -- `subscribe_enabled` *)
 | If (c : bexpr) (a b : stmt)
 | Try (body : stmt) (hc : option hclass) (hb : stmt) (fin : stmt)
                                     (* try: body [except hc: hb] [finally: fin]; absent parts are None / Skip *)
